@@ -1,8 +1,200 @@
-import BddVerif.Drive.Util
-/-! Driver for C09 — stub, to be written. -/
+import BddVerif.Drive.Tables
+import BddVerif.Gen.OpTables
+import BddVerif.Model.Count
+/-!
+Driver for C09. Per case it (a) recomputes the observation with the model (`exactCardO`, `clauseCardO`,
+`supportSet`, `sizePerVariable`; for the laws also `applyWithFlip`/`bddNot`), and (b) evaluates the
+property's own predicate on the OBSERVED values, independently of the cached level-gap arithmetic:
+
+* exact count = popcount of the truth table (n ≤ 12) and = Σ over root-to-one paths of 2^(n − path
+  length) (any n, by plain path enumeration with a work budget);
+* clause count = number of root-to-one paths = number of items the `sat_clauses` iterator yielded;
+* support (canonical diagrams) = variables the function depends on (truth table for n ≤ 12; for large n
+  brute force over the assignments of the reported variables, plus "no node tests another variable");
+* size_per_variable: keys = support, counts sum to size − 2;
+* `cardinality()` (f64, given as its bit pattern) against the exact count in exact rational arithmetic:
+  not NaN, not negative; `+inf` only if exact·(1 + size·2⁻⁵⁰) ≥ f64::MAX; otherwise finite with
+  |f − exact| ≤ exact·size·2⁻⁵⁰. IEEE arithmetic itself is outside the model (partial);
+* laws: |a∨b| + |a∧b| = |a| + |b| and |¬a| = 2ⁿ − |a| on the observed numbers.
+-/
 namespace B.Drive.C09
 open B B.Drive
 
-def handle (key : String) (_ins _obs : List String) : Verdict := Verdict.bad ("key " ++ key)
+def maxTT : Nat := 12
+
+def showO : Outcome Nat → String
+  | .ok x => toString x
+  | _ => "panic"
+
+def showNats (xs : List Nat) : String := if xs.isEmpty then "~" else ",".intercalate (xs.map toString)
+def showPairs (xs : List (Nat × Nat)) : String :=
+  if xs.isEmpty then "~" else ",".intercalate (xs.map fun (a, b) => s!"{a}:{b}")
+
+def parseNats? (s : String) : Option (List Nat) :=
+  if s == "~" then some [] else (s.splitOn ",").mapM (·.toNat?)
+def parsePairs? (s : String) : Option (List (Nat × Nat)) :=
+  if s == "~" then some [] else (s.splitOn ",").mapM fun f =>
+    match f.splitOn ":" with
+    | [a, b] => match a.toNat?, b.toNat? with | some a, some b => some (a, b) | _, _ => none
+    | _ => none
+
+/-- plain enumeration of the root-to-terminal paths: state = (budget, paths to one, Σ 2^(n − length)) -/
+def bruteGo (A : Arr) (n : Nat) : Nat → Nat → Nat → (Nat × Nat × Nat) → Option (Nat × Nat × Nat)
+  | 0, _, _, _ => none
+  | f + 1, p, fixed, (bud, paths, cnt) =>
+    if bud = 0 then none
+    else if p = 0 then some (bud - 1, paths, cnt)
+    else if p = 1 then some (bud - 1, paths + 1, cnt + 2 ^ (n - fixed))
+    else
+      let nd := nodeAt A p
+      match bruteGo A n f nd.low (fixed + 1) (bud - 1, paths, cnt) with
+      | none => none
+      | some st => bruteGo A n f nd.high (fixed + 1) st
+
+/-- `(paths to one, model count)` by path enumeration, `none` if more than 300 000 steps are needed -/
+def brute (A : Arr) : Option (Nat × Nat) :=
+  if A.size = 1 then some (0, 0) else
+  (bruteGo A (numVars A) (A.size + 1) (root A) 0 (300000, 0, 0)).map fun (_, p, c) => (p, c)
+
+def popcount (tt : Array Bool) : Nat := tt.foldl (fun acc b => if b then acc + 1 else acc) 0
+
+/-- variables on which the truth table over `n` variables depends -/
+def ttSupport (tt : Array Bool) (n : Nat) : List Nat :=
+  (List.range n).filter fun k =>
+    (List.range (2 ^ n)).any fun i => tt[i]! != tt[i ^^^ (1 <<< (n - 1 - k))]!
+
+/-- does the function of `A` depend on `x`, testing all assignments of the variables `vars` (others false) -/
+def dependsOn (A : Arr) (vars : List Nat) (x : Nat) : Bool :=
+  let m := vars.length
+  (List.range (2 ^ m)).any fun i =>
+    let v : Nat → Bool := fun k => match vars.idxOf? k with
+      | some j => (i >>> j) % 2 == 1
+      | none => false
+    evalArr A (fun k => if k = x then true else v k) != evalArr A (fun k => if k = x then false else v k)
+
+/-- reduced regardless of the numbering of the nodes: terminals exact, links in range, variables
+    strictly increasing along links, distinct children, no duplicate node, every node reachable from
+    the root (so the diagram is the canonical one up to a renumbering of its nodes) -/
+def reducedAnyOrder (A : Arr) : Bool := Id.run do
+  let n := numVars A
+  if A.size = 0 then return false
+  if A[0]! != ⟨n, 0, 0⟩ then return false
+  if A.size = 1 then return true
+  if A[1]! != ⟨n, 1, 1⟩ then return false
+  let mut seen : Std.HashSet Node := {}
+  for i in [2:A.size] do
+    let nd := A[i]!
+    if !(nd.var < n && nd.low < A.size && nd.high < A.size && nd.low != nd.high) then return false
+    if !(nd.var < (A[nd.low]!).var && nd.var < (A[nd.high]!).var) then return false
+    if seen.contains nd then return false
+    seen := seen.insert nd
+  let reach := reachGo A (A.size + 1) (root A) (Array.replicate A.size false)
+  return (List.range A.size).all fun p => p < 2 || reach.getD p false
+
+def hexVal (c : Char) : Option Nat :=
+  if '0' ≤ c ∧ c ≤ '9' then some (c.toNat - '0'.toNat)
+  else if 'a' ≤ c ∧ c ≤ 'f' then some (c.toNat - 'a'.toNat + 10) else none
+def parseHex? (s : String) : Option Nat :=
+  s.toList.foldlM (fun acc c => (hexVal c).map (acc * 16 + ·)) 0
+
+def f64Max : Nat := (2 ^ 53 - 1) * 2 ^ 971
+
+/-- the floating-point clause; `none` = holds -/
+def checkF64 (bits exact size : Nat) : Option String :=
+  let sign := bits >>> 63
+  let e := (bits >>> 52) % 2048
+  let m := bits % 2 ^ 52
+  if sign = 1 ∧ (e ≠ 0 ∨ m ≠ 0) then some "f64-negative"
+  else if e = 2047 then
+    if m ≠ 0 then some "f64-nan"
+    else if exact * (2 ^ 50 + size) ≥ f64Max * 2 ^ 50 then none else some "f64-inf-but-representable"
+  else
+    -- value = num / den
+    let mant := if e = 0 then m else 2 ^ 52 + m
+    let ex : Int := (if e = 0 then 1 else (e : Int)) - 1075
+    let num := if ex ≥ 0 then mant * 2 ^ ex.toNat else mant
+    let den := if ex ≥ 0 then 1 else 2 ^ (-ex).toNat
+    let a := num
+    let b := exact * den
+    let diff := if a ≥ b then a - b else b - a
+    if exact = 0 then (if bits = 0 then none else some "f64-zero")
+    else if diff * 2 ^ 50 ≤ exact * size * den then none else some "f64-tolerance"
+
+def firstFail (xs : List (Option String)) : Option String := xs.findSome? id
+
+def maxGap (A : Arr) : Nat :=
+  (List.range A.size).foldl (fun acc p => if p < 2 then acc else
+    let nd := nodeAt A p
+    max acc (max (varAt A nd.low - nd.var) (varAt A nd.high - nd.var))) (varAt A (root A))
+
+def tagsCnt (A : Arr) (exact : Option Nat) : List String :=
+  let n := numVars A
+  [ if n ≤ 4 then s!"n{n}" else if n ≤ 12 then "n5-12" else if n ≤ 64 then "n13-64" else if n ≤ 1024 then "n65-1024" else "n>1024",
+    if maxGap A > 1024 then "gap>1024" else if maxGap A > 1 then "gap" else "nogap",
+    match exact with | some x => if x ≥ 2 ^ 64 then (if x > f64Max then "count>f64max" else "count>2^64") else "count<2^64" | none => "nocount",
+    if isCanon A then "canon" else if reducedAnyOrder A then "reduced-not-postorder" else "noncanon" ]
+
+def handle (key : String) (ins obs : List String) : Verdict :=
+  match key, ins, obs with
+  | "C09.cnt", [a], [oExact, oClause, oBits, oSup, oSpv, oSize, oPaths] =>
+    match parseArr? a with
+    | some A =>
+      let n := numVars A
+      let model := s!"{showO (exactCardO A)} {showO (clauseCardO A)} {showNats (supportSet A)} {showPairs (sizePerVariable A)} {A.size}"
+      let observed := s!"{oExact} {oClause} {oSup} {oSpv} {oSize}"
+      let fail : Option String :=
+        match oExact.toNat?, oClause.toNat?, parseHex? oBits, parseNats? oSup, parsePairs? oSpv, oSize.toNat? with
+        | some ex, some cl, some bits, some sup, some spv, some sz =>
+          let br := brute A
+          let canon := reducedAnyOrder A
+          firstFail [
+            if n ≤ maxTT then (if popcount (ttOf A n) == ex then none else some "exact≠popcount") else none,
+            match br with | some (_, c) => if c == ex then none else some "exact≠Σpaths" | none => none,
+            match br with | some (p, _) => if p == cl then none else some "clause≠#paths" | none => none,
+            -- the path iterator documents a panic ("The BDD is not canonical.") on a node with low = high
+            if oPaths == "-" then none
+            else if oPaths == "panic" && (List.range A.size).any (fun p => p ≥ 2 && (nodeAt A p).low == (nodeAt A p).high) then none
+            else (if oPaths.toNat? == some cl then none else some "clause≠sat_clauses.count"),
+            if !canon then none
+            else if n ≤ maxTT then (if ttSupport (ttOf A n) n == sup then none else some "support≠dependence")
+            else if sup.length ≤ 12 then
+              (if sup.all (dependsOn A sup) && (List.range A.size).all (fun p => p < 2 || sup.contains (nodeAt A p).var)
+               then none else some "support≠dependence(large)")
+            else none,
+            if spv.map (·.1) == sup then none else some "spv-keys≠support",
+            if (spv.map (·.2)).foldl (· + ·) 0 + 2 == sz ∨ (sz < 2 ∧ spv.isEmpty) then none else some "spv-sum≠size-2",
+            if spv.all (·.2 > 0) then none else some "spv-zero-entry",
+            checkF64 bits ex sz ]
+        | _, _, _, _, _, _ => some s!"outcome:{oExact},{oClause},{oBits},{oSup},{oSpv}"
+      { agree := model == observed, model, fail, nontrivial := A.size > 2, tags := tagsCnt A oExact.toNat? }
+    | none => Verdict.bad "args"
+  | "C09.law", [ns, a, b], [oa, ob, oor, oand, onot] =>
+    match ns.toNat?, parseArr? a, parseArr? b with
+    | some n, some A, some B =>
+      let mor := applyWithFlip A B Gen.or_ none none none
+      let mand := applyWithFlip A B Gen.and_ none none none
+      let model := s!"{showO (exactCardO A)} {showO (exactCardO B)} {showO (exactCardO mor)} {showO (exactCardO mand)} {showO (exactCardO (bddNot A))}"
+      let observed := s!"{oa} {ob} {oor} {oand} {onot}"
+      let fail : Option String :=
+        match oa.toNat?, ob.toNat?, oor.toNat?, oand.toNat?, onot.toNat? with
+        | some ca, some cb, some cor, some cand, some cnot =>
+          firstFail [
+            if numVars A == n && numVars B == n then none else some "harness:num_vars",
+            if cor + cand == ca + cb then none else some "|a∨b|+|a∧b|≠|a|+|b|",
+            if cnot + ca == 2 ^ n then none else some "|¬a|≠2^n-|a|",
+            if n ≤ maxTT then (if popcount (ttOf A n) == ca && popcount (ttOf B n) == cb then none else some "exact≠popcount") else none ]
+        | _, _, _, _, _ => some s!"outcome:{observed}"
+      { agree := model == observed, model, fail, nontrivial := A.size > 2 && B.size > 2 && mor.size > 2 && mand.size > 2,
+        tags := [s!"law-n{n}", if (oor.toNat?.getD 0) ≥ 2 ^ 64 then "count>2^64" else "count<2^64"] }
+    | _, _, _ => Verdict.bad "args"
+  | "C09.bad", [a], [oExact, oClause] =>
+    match parseArr? a with
+    | some A =>
+      let model := s!"{showO (exactCardO A)} {showO (clauseCardO A)}"
+      -- nothing is claimed about malformed input; only the outcome kind is compared with the model
+      { agree := model == s!"{oExact} {oClause}", model, fail := none, nontrivial := false,
+        tags := ["malformed", if oExact == "panic" then "panic" else "ok"] }
+    | none => Verdict.bad "args"
+  | _, _, _ => Verdict.bad ("key " ++ key)
 
 end B.Drive.C09
